@@ -209,6 +209,7 @@ class Facts:
         # (PONG times are *processing* times: identical to arrival times
         # unless a synchronous handler was made to sleep)
         pongs = self.pong_arrivals(sid)
+        pongs_maybe = self.pong_arrivals(sid, maybe=True)
         for (seq, t, pt, d) in h.world.qlog.get(sid, []):
             if pt != R.PING:
                 continue
@@ -216,10 +217,15 @@ class Facts:
             # (lower bound never blurred: a PONG cannot precede its PING)
             if not any(t - EPS0 <= tp <= t + self.T + EPS for tp in pongs):
                 later = [tp for tp in pongs if tp > t + self.T + EPS]
+                # (answered only by a PONG that may not have been processed:
+                # the server may or may not time out)
+                unsure = any(t - EPS0 <= tp <= t + self.T + EPS
+                             for tp in pongs_maybe)
                 out.append(_cause('silence', None, t + self.T, False,
                                   {'ping timeout', 'transport close',
                                    'transport error'},
-                                  resumed=later[0] if later else None))
+                                  resumed=later[0] if later else None,
+                                  optional=unsure))
             elif blur and not any(t - EPS0 <= tp <= t + self.T - blur
                                   for tp in pongs):
                 # stall run: a PONG this close to the deadline may or may
@@ -236,7 +242,8 @@ class Facts:
         body that is refused as a whole (too long, too many packets,
         undecodable) is not processed at all; a CLOSE or a refused packet
         type ends the processing of the body.  Where the reference is not
-        certain about a packet in front of the PONG, the PONG counts."""
+        certain about a packet in front of the PONG the answer is None
+        (maybe)."""
         h = self.h
         try:
             declared = len(req.body) if req.declared is None \
@@ -257,19 +264,23 @@ class Facts:
                 return False
             if len(parts) > h.world.app_opts.get('max_decode_packets', 16):
                 return False
-            # some packet is undecodable: certain only for what precedes it
-            return any(p.startswith('3') for p in parts)
+            # some packet is undecodable: the code under test decodes the
+            # whole body before it processes anything, but whether it fails
+            # where the reference does is not certain
+            return None if any(p.startswith('3') for p in parts) else False
         for (pt, d, cert) in pk:
             if cert != 'exact' or pt is None:
-                return any(p2 == R.PONG for (p2, _d, _c) in pk)
+                return None if any(p2 == R.PONG for (p2, _d, _c) in pk) \
+                    else False
             if pt == R.PONG:
                 return True
             if pt not in (R.MESSAGE, R.UPGRADE):
                 return False
         return False
 
-    def pong_arrivals(self, sid):
-        """Server-side arrival times of PONG packets for this session."""
+    def pong_arrivals(self, sid, maybe=False):
+        """Server-side arrival times of PONG packets for this session
+        (``maybe``: including those the reference is not certain about)."""
         s = self.sess[sid]
         c = s['client']
         out = []
@@ -278,7 +289,8 @@ class Facts:
         for req in c.posts:
             if req.seq_arrive is None or ('sid=' + sid) not in req.query:
                 continue
-            if self._post_processes_pong(req):
+            verdict = self._post_processes_pong(req)
+            if verdict or (maybe and verdict is None):
                 out.append(req.t_done if (self.has_sleep and
                                           req.t_done is not None)
                            else req.t_arrive)
